@@ -638,6 +638,7 @@ impl OrdSpecImpl for Version { open spec fn obeys_cmp_spec() -> bool { true } op
     g.private_mods = set()
     g.emit('m_winnow', P('winnow_shim.rs'))
     g.emit('m_vspec', P('vgrammar_spec.rs'))
+    g.emit('m_rspec', P('rgrammar_spec.rs'))
     g.emit('m_vtwins', K.grammar_twins())
     g.emit('m_vtwins', K.PARSE_SPEC)
     g.emit('m_vtwins', K.PARSE_POST)
@@ -654,7 +655,7 @@ impl OrdSpecImpl for Version { open spec fn obeys_cmp_spec() -> bool { true } op
     def grammar_fn(n):
         def u():
             d = K.GRAMMAR[n]
-            f = top_fn(LIB, n)
+            f = top_fn(RNG if d.get('src') == 'rng' else LIB, n)
             sig_re = r"(?:pub(?:\(crate\))? )?fn %s<'s>\(\s*input: &mut &'s str,?\s*\) -> PResult<%s, SemverParseError<&'s str>> \{" % (re.escape(n), re.escape(d['O']))
             if not re.match(sig_re, ' '.join(f.verbatim[:f.verbatim.index('{') + 1].split()).replace('( input', '(input').replace("str, )", "str)")):
                 raise AnchorLost('signature of grammar function %s' % n)
